@@ -217,7 +217,7 @@ def _cmp_bfs(model, got, exact):
     final weight and, symbol by symbol, arcs of the same weight into corresponding states; every state of either machine must
     be reached.  Exact arithmetic: the correspondence must be one-to-one.  Floats: rounding can make the real code keep apart
     subsets that differ in the last bit ({q: 1.0} / {q: 0.9999999999999999}) where ℚ has one state — several real states may
-    correspond to one model state (counted as `float_split`), never the other way round.  Returns (why, split?)"""
+    correspond to one model state, or one real state to several model states within the tolerance (both counted as `float_split`).  Returns (why, split?)"""
     ta, why = _det_tables(model)
     if ta is None:
         return "model: " + why, False
@@ -254,9 +254,12 @@ def _cmp_bfs(model, got, exact):
         return f"model states not reachable from the initial one: {sorted(_xstates(model) - set(ma))[:3]}", False
     if _xstates(got) - set(mb):
         return f"impl states not reachable from the initial one: {sorted(_xstates(got) - set(mb))[:3]}", False
-    if any(len(v) > 1 for v in mb.values()):
+    if any(len(v) > 1 for v in mb.values()) and exact:
         return f"one impl power state corresponds to several model states: {[(k, sorted(v)) for k, v in mb.items() if len(v) > 1][:2]}", False
-    split = any(len(v) > 1 for v in ma.values())
+    # (floats, the other direction: the real code's rounded residuals can coincide — {q: 1−2⁻⁵³} stays {q: 1−2⁻⁵³} after a step
+    #  where ℚ moves to {q: 1} — so one real state may also stand for several model states that are within the tolerance of it;
+    #  every pair was compared weight by weight above.  Seen once in 4 000 thorough cases; counted with the splits)
+    split = any(len(v) > 1 for v in ma.values()) or any(len(v) > 1 for v in mb.values())
     if split and exact:
         return f"model has {len(ma)} power states, impl {len(mb)}: {[(k, sorted(v)) for k, v in ma.items() if len(v) > 1][:2]}", True
     return "", split
